@@ -12,6 +12,8 @@ structure St where
   s : State
   names : List Nat
   us : List (Scope × Addr)
+  /-- `reset pf=1`: the tree has the ChangePassphrases public-half fix (harness probe) -/
+  pubFix : Bool := false
 
 def scopeNames : List String := ["np", "wpkh", "tr"]
 def allScopes : List Scope := [0, 1, 2]
@@ -37,6 +39,7 @@ def showErr : Err → String
   | .dbError => "db-error"
   | .noCoin => "no-coin"
   | .commitFail => "commit-failed"
+  | .wrongPass => "wrong-pass"
 
 def showRow (r : Row) : String := s!"{r.name}:{r.key}:{r.ext}:{r.int}"
 
@@ -60,7 +63,8 @@ def digest (d : Disk) (m : Mem) (names : List Nat) (us : List (Scope × Addr)) (
     (if nx then base ++ s!";NX={joinWith "," nxs}" else base) ++ "}"
   joinWith " " ((allScopes.zip scopeNames).map fun p => one p.1 p.2)
 
-def diskDigest (st : St) : String := "D[" ++ digest st.s.disk emptyMem st.names st.us true ++ "]"
+def diskDigest (st : St) : String :=
+  "D[" ++ digest st.s.disk emptyMem st.names st.us true ++ s!" P={st.s.disk.priv}/{st.s.disk.pub}]"
 
 def addU (us : List (Scope × Addr)) (sc : Scope) (ads : List Addr) : List (Scope × Addr) :=
   ads.foldl (fun l ad => if l.contains (sc, ad) then l else l ++ [(sc, ad)]) us
@@ -105,8 +109,36 @@ def exec (st : St) (sc : Scope) (op : Op) (names : List Nat) : St × String :=
       (s!"ok acct={a} props={showRow row} ext={joinWith "," (ext.map showAddr)} int={joinWith "," (int.map showAddr)}",
        ext ++ int)
     | .imported a row _ _, _ => (s!"ok acct={a} props={showRow row}", [])
-  let st' : St := { s := s', names := names, us := addU st.us sc (ads ++ lost) }
+  let st' : St := { st with s := s', names := names, us := addU st.us sc (ads ++ lost) }
   (st', txt ++ " " ++ diskDigest st')
+
+/-- passphrase id below `n` -/
+def pass? (s : Option String) (n : Nat) : Option Nat :=
+  match s.bind String.toNat? with
+  | some v => if v < n then some v else none
+  | none => none
+
+def nPriv : Nat := 4
+def nPub : Nat := 3
+
+/-- `passprobe`: Unlock with every other known private passphrase (ascending), then with the one a restarted wallet
+accepts; the lock state is restored -/
+def probe (s : State) : State × String :=
+  let cur := s.disk.priv
+  let ids := ((List.range nPriv).filter (· != cur)) ++ [cur]
+  let r := ids.foldl (fun (acc : State × List String) id =>
+    let x := step acc.1 (.unlockPass id)
+    let t := match x.2 with | .err e => showErr e | _ => "ok"
+    (x.1, acc.2 ++ [s!"{id}:{t}"])) (s, [])
+  let s' := if s.mem.locked then (step r.1 .lock).1 else r.1
+  (s', "probe " ++ joinWith "," r.2)
+
+/-- address designator `<key>.<branch>.<index>` inside the harness's tables (keys 1..4 and 100..111, index < 24) -/
+def des? (v : String) : Option Addr :=
+  match (v.splitOn ".").map String.toNat? with
+  | [some k, some b, some i] =>
+    if ((1 ≤ k ∧ k ≤ 4) ∨ (100 ≤ k ∧ k ≤ 111)) ∧ b ≤ 1 ∧ i < 24 then some ⟨k, b == 1, i⟩ else none
+  | _ => none
 
 def fresh : St := { s := init, names := [1], us := [] }
 
@@ -116,7 +148,11 @@ def step' (st : Option St) (line : String) : Option St × String :=
   | [] => (st, "bad-op")
   | op :: rest =>
     if op == "reset" then
-      (some fresh, "ok " ++ diskDigest fresh)
+      match cf? (kv rest "pf") with
+      | none => (none, "bad-op")
+      | some pf =>
+        let f : St := { fresh with pubFix := pf }
+        (some f, "ok " ++ diskDigest f)
     else
     match st with
     | none => (none, "bad-op")
@@ -160,9 +196,22 @@ def step' (st : Option St) (line : String) : Option St × String :=
             | some "big" => some 2147483648
             | some v => match v.toNat? with | some n => if n ≤ 8 then some n else none | none => none
             | none => none
-          match key?, n? with
-          | some key, some n => wrap (exec st sc (.importAcct (op == "importdry") sc nm key n (op == "import" && cf)) (addName st.names nm))
-          | _, _ => (some st, "bad-op")
+          -- `race=1 ra=<key.br.idx>` (importdry only): an AddressInfo lookup of that address of the scope by another
+          -- goroutine while the dry run's transaction is open; whatever the interleaving, the result is the dry run
+          -- followed by the lookup's cache fill
+          let race? : Option (Option Addr) :=
+            match kv rest "race" with
+            | none => some none
+            | some "0" => some none
+            | some "1" => if op == "importdry" then (kv rest "ra").bind fun v => (des? v).map some else none
+            | _ => none
+          match key?, n?, race? with
+          | some key, some n, some race =>
+            let r := exec st sc (.importAcct (op == "importdry") sc nm key n (op == "import" && cf)) (addName st.names nm)
+            match race with
+            | none => wrap r
+            | some ad => (some { r.1 with s := (step r.1.s (.cmp [] [(sc, ad)])).1 }, r.2)
+          | _, _, _ => (some st, "bad-op")
         | _, _, _ => (some st, "bad-op")
       | "rename" =>
         match sc?, a?, nm? with
@@ -172,8 +221,34 @@ def step' (st : Option St) (line : String) : Option St × String :=
         match sc?, nm? with
         | some sc, some nm => wrap (exec st sc (.newAcct sc nm) (addName st.names nm))
         | _, _ => (some st, "bad-op")
+      | "restart" => wrap (exec st 0 .restart st.names)
       | "lock" => wrap (exec st 0 .lock st.names)
-      | "unlock" => wrap (exec st 0 .unlock st.names)
+      | "unlock" =>
+        match kv rest "pass" with
+        | none => wrap (exec st 0 (.unlockPass st.s.disk.priv) st.names)
+        | some v =>
+          match pass? (some v) nPriv with
+          | some p => wrap (exec st 0 (.unlockPass p) st.names)
+          | none => (some st, "bad-op")
+      | "passprobe" =>
+        let r := probe st.s
+        let st' : St := { st with s := r.1 }
+        (some st', r.2 ++ " " ++ diskDigest st')
+      | "chpriv" | "chpub" =>
+        let n := if op == "chpriv" then nPriv else nPub
+        match pass? (kv rest "old") n, pass? (kv rest "new") n with
+        | some o, some nw => wrap (exec st 0 (.chPass (op == "chpriv") o nw) st.names)
+        | _, _ => (some st, "bad-op")
+      | "chboth" =>
+        match pass? (kv rest "pubold") nPub, pass? (kv rest "pubnew") nPub, pass? (kv rest "privold") nPriv,
+            pass? (kv rest "privnew") nPriv with
+        | some po, some pn, some vo, some vn =>
+          if st.pubFix then
+            let r := stepChBothFixed st.s po pn vo vn
+            let st' : St := { st with s := r.1 }
+            (some st', (match r.2 with | .err e => showErr e | _ => "ok") ++ " " ++ diskDigest st')
+          else wrap (exec st 0 (.chBoth po pn vo vn) st.names)
+        | _, _, _, _ => (some st, "bad-op")
       | "cmp" =>
         let r := "R[" ++ digest st.s.disk st.s.mem st.names st.us false ++ "]"
         let st' : St := { st with s := (step st.s (.cmp allScopes st.us)).1 }
